@@ -21,13 +21,20 @@ type c05gen struct {
 // sections lays out k sections from `start` upwards; consecutive sections never share a page
 // (as the linker script guarantees) unless `overlap` asks for an out-of-domain table.
 func (g *c05gen) sections(start uint64, k int, maxPages int, overlap bool) []uint64 {
+	return g.sectionsAt(start, k, maxPages, overlap, false)
+}
+
+// sectionsAt: with exact, the first section starts exactly at `start` (e.g. at the kernel offset).
+func (g *c05gen) sectionsAt(start uint64, k int, maxPages int, overlap, exact bool) []uint64 {
 	r := g.r
 	var out []uint64
 	page := start >> 12
 	for i := 0; i < k; i++ {
-		page += uint64(r.intn(3))
+		if !(exact && i == 0) {
+			page += uint64(r.intn(3))
+		}
 		addr := page << 12
-		if r.chance(40) {
+		if r.chance(40) && !(exact && i == 0) {
 			addr += uint64(r.intn(4096))
 		}
 		var size uint64
@@ -81,7 +88,90 @@ func TestVerifC05(t *testing.T) {
 		g.do("xlate", uint64(earlyReserveLastUsed)-1)
 	}
 
+	// a reservation that cannot fit: must fail and leave the reservation cursor where it was
+	oversized := func(k int) uint64 {
+		cur := uint64(earlyReserveLastUsed)
+		switch k % 5 {
+		case 0:
+			return ^uint64(0) - 4095 - 7*4096 // (1<<63 would fit: the space below the cursor is almost 2^64)
+		case 1:
+			return ^uint64(0) - 4095
+		case 2:
+			return cur + 4096
+		case 3:
+			return cur + 1
+		}
+		return ^uint64(0) - 8191
+	}
+	// probes of every page reserved so far (first, last address of each region)
+	var regions [][2]uint64
+	region := func(frame, size, flags uint64) {
+		before := uint64(earlyReserveLastUsed)
+		g.do("region", frame, size, flags)
+		after := uint64(earlyReserveLastUsed)
+		if after < before && before-after < 1<<30 {
+			regions = append(regions, [2]uint64{after, before - 1})
+		}
+	}
+	probeRegions := func() {
+		for _, rg := range regions {
+			g.do("xlate", rg[0])
+			g.do("xlate", rg[1])
+		}
+	}
+
 	// ---- deterministic boundary list
+	for k := 0; k < 5; k++ {
+		k := k
+		bcase("b-failed-reserve", func() {
+			regions = regions[:0]
+			g.refill(60)
+			region(700, 3*4096, 3)
+			region(900, 1, 1<<63|3)
+			g.do("reserve", oversized(k)) // fails; everything reserved and mapped before must survive
+			if k%2 == 0 {
+				region(50, 4097, 1)
+			}
+			secs := []uint64{5, off + 0x200000, 2 * 4096}
+			g.do("secs", secs...)
+			g.do("setup", off)
+			probeRegions()
+			probeAll(secs, off)
+		})
+	}
+	bcase("b-at-offset", func() {
+		g.refill(60)
+		secs := []uint64{5, off, 4097, 3, off + 3*4096 + 1, 10, 1, off - 1, 1, 2, off - 4096, 4096}
+		g.do("secs", secs...)
+		g.do("setup", off)
+		probeAll(secs, off)
+		g.do("xlate", off)
+		g.do("xlate", off+4096)
+		g.do("xlate", off-1)
+	})
+	bcase("b-at-offset-1byte", func() {
+		g.refill(60)
+		secs := []uint64{7, off, 1, 0, off + 4096, 1}
+		g.do("secs", secs...)
+		g.do("setup", off)
+		probeAll(secs, off)
+	})
+	bcase("b-at-offset-zero", func() {
+		g.refill(60)
+		secs := []uint64{5, 0, 2 * 4096, 3, 3 * 4096, 5} // offset 0: a section at address 0
+		g.do("secs", secs...)
+		g.do("setup", 0)
+		probeAll(secs, 0)
+		g.do("xlate", 0)
+	})
+	bcase("b-at-offset-mid", func() {
+		g.refill(60)
+		o := uint64(0x40000000)
+		secs := []uint64{1, o, 4096, 4, o + 4096, 4096, 7, o - 4096, 4096}
+		g.do("secs", secs...)
+		g.do("setup", o)
+		probeAll(secs, o)
+	})
 	for _, fl := range []uint64{0, 1, 2, 3, 4, 5, 6, 7} {
 		fl := fl
 		bcase("b-flags", func() {
@@ -163,25 +253,42 @@ func TestVerifC05(t *testing.T) {
 		g.begin()
 		g.universe()
 		g.refill(int(r.pick(40, 60, 60, 80)))
-		// early reservations, mapped as the allocators do it
+		// early reservations, mapped as the allocators do it; now and then a request that cannot fit
+		regions = regions[:0]
 		for j := r.intn(6); j > 0 && g.alive; j-- {
 			if r.chance(8) {
 				g.do("reserve", uint64(1+r.intn(8192)))
 			} else {
-				g.do("region", g.frame(), uint64(1+r.intn(4*4096)), r.pick(3, 1, 1<<63|3, 0x203))
+				region(g.frame(), uint64(1+r.intn(4*4096)), r.pick(3, 1, 1<<63|3, 0x203))
 			}
+			if r.chance(20) {
+				g.do("reserve", oversized(r.intn(5)))
+			}
+		}
+		if r.chance(10) {
+			g.do("reserve", oversized(r.intn(5)))
 		}
 		o := off
 		base := off + 0x100000
-		switch r.intn(8) {
+		exact := false
+		switch r.intn(10) {
 		case 0:
 			o, base = 0, 0x100000
 		case 1:
 			o, base = 0x40000000, 0x40000000+uint64(r.intn(64))<<12
 		case 2:
 			base = off + uint64(r.intn(1<<18))<<12
+		case 3, 4: // a section that starts exactly at the kernel offset
+			base, exact = off, true
+		case 5:
+			o, base, exact = 0, 0, true
+		case 6:
+			o, base, exact = 0x40000000, 0x40000000, true
 		}
-		secs := g.sections(base, r.intn(7), 40, r.chance(6))
+		secs := g.sectionsAt(base, r.intn(7), 40, r.chance(6), exact)
+		if exact && len(secs) == 0 {
+			secs = []uint64{uint64(r.intn(8)), base, uint64(1 + r.intn(3*4096))}
+		}
 		if r.chance(30) { // sections outside the kernel's virtual range
 			low := g.sections(uint64(0x1000+r.intn(1<<20)), r.between(1, 2), 3, false)
 			if o != 0 {
@@ -201,6 +308,7 @@ func TestVerifC05(t *testing.T) {
 		}
 		g.do("setup", o)
 		if g.alive {
+			probeRegions()
 			probeAll(secs, o)
 			if r.chance(50) {
 				g.do("map", g.page(), g.frame(), g.flags())
